@@ -439,12 +439,16 @@ class Buildable(Generic[T], metaclass=abc.ABCMeta):
     new_placeholders = old_placeholders.copy()
     # Traverse from largest index to maintain order of undeleted indices.
     for index in indices[::-1]:
-      if index < var_positional_start:
+      if var_positional_start is None or index < var_positional_start:
         k = self.__signature_info__.index_to_key(index, self.__arguments__)
         if k in self.__arguments__:
           self._arguments_del_value(k)
       else:
         del new_placeholders[index]
+
+    if var_positional_start is None:
+      # *args does not exist, so there is nothing to compact.
+      return
 
     # Delete var-positional args and compact the *args list.
     for index in range(var_positional_start, len(old_placeholders)):
